@@ -33,7 +33,7 @@ theorem header_roundtrip (f : Fields) (h : f.WF) :
     parseEntryName (compose f) = f.entry ∧
     parseGene (compose f) = f.gene ∧
     parseDescription (compose f) = f.desc ∧
-    parseExistence (compose f) = some (some f.pe) ∧
+    parseExistence (compose f) = some (some (f.pe : Int)) ∧
     (∀ g, f.gene = some g → parseOrganism (compose f) = some (f.org ++ [OX ++ f.ox])) := by
   refine ⟨parseId_compose f, parseUniprotId_compose f h, parseEntryName_compose f h,
     parseGene_compose f h, parseDescription_compose f h, parseExistence_compose f h, ?_⟩
@@ -50,7 +50,7 @@ theorem header_roundtrip_text (rule : IdRule) (f : Fields) (h : f.WF) (hb : f.No
         header := render f, uniprotId := f.acc, entryName := f.entry, geneName := f.gene, length := n,
         organism := some (unwords (f.org ++ [OX ++ f.ox] ++
           (if f.gene.isSome then [] else [PE ++ [Nat.digitChar f.pe], SV ++ f.sv]))),
-        description := unwords f.desc, existence := some f.pe } :=
+        description := unwords f.desc, existence := some (f.pe : Int) } :=
   annotate_render rule f h hb n
 
 /-- "organism (for headers that carry a gene name)": without a `GN=` word nothing ends the organism
@@ -124,7 +124,7 @@ theorem header_roundtrip_char (f : Fields) (h : f.WF) (hb : f.NoBlank) :
     parseEntryNameChar (render f) = f.entry ∧
     parseGeneChar (render f) = f.gene ∧
     parseDescriptionChar (render f) = unwords f.desc ∧
-    parseExistenceChar (render f) = some (some f.pe) ∧
+    parseExistenceChar (render f) = some (some (f.pe : Int)) ∧
     (∀ g, f.gene = some g → parseOrganismChar (render f) = some (unwords (f.org ++ [OX ++ f.ox]))) ∧
     (f.gene = none → parseOrganismChar (render f) =
         some (unwords (f.org ++ [OX ++ f.ox, PE ++ [Nat.digitChar f.pe], SV ++ f.sv]))) := by
@@ -142,12 +142,57 @@ theorem header_roundtrip_char_annotation (rule : IdRule) (f : Fields) (h : f.WF)
         header := render f, uniprotId := f.acc, entryName := f.entry, geneName := f.gene, length := n,
         organism := some (unwords (f.org ++ [OX ++ f.ox] ++
           (if f.gene.isSome then [] else [PE ++ [Nat.digitChar f.pe], SV ++ f.sv]))),
-        description := unwords f.desc, existence := some f.pe } := by
+        description := unwords f.desc, existence := some (f.pe : Int) } := by
   rw [annotateChar_eq]; exact header_roundtrip_text rule f h hb n
 
+/-! ## The hypotheses on lines, in Python's terms
+
+The record-level theorems below assume `FastaRecord.Clean` (`ComposedRecord.Good` includes it): nothing for
+`line.rstrip()` to remove.  `rstrip` of the model strips `isSpace`, which is Python's `str.isspace` — NOT the six
+ASCII characters only: a line ending in NBSP, NEL (U+0085), FS…US (U+001C–U+001F) or a Unicode blank is stripped
+by Python and by the model, and is therefore NOT clean.  The table is compared with the running interpreter over
+every code point by the correspondence (case kind `charclass`). -/
+
+/-- the white space of the model is Python's `str.isspace` (CPython 3.12, Unicode 15.0): exactly the 29 code points
+    of `pySpaceCodePoints` — U+0009–U+000D, U+001C–U+0020, U+0085, U+00A0, U+1680, U+2000–U+200A, U+2028, U+2029,
+    U+202F, U+205F, U+3000 -/
+theorem white_space_is_pythons (c : Char) : isSpace c = true ↔ c.toNat ∈ pySpaceCodePoints :=
+  isSpace_iff_mem c
+
+/-- `line.rstrip()` leaves a line as it is exactly when the line does not END in white space -/
+theorem rstrip_fixed_iff (l : List Char) : rstrip l = l ↔ ∀ c, l.getLast? = some c → isSpace c = false :=
+  rstrip_eq_self_iff l
+
+/-- the hypothesis `Clean` of `sequence_length` / `annotations_of_composed_file`, spelled out: a non-empty header,
+    no header and no sequence line ending in a character of Python's white space, no sequence line starting
+    with `>` -/
+theorem clean_iff (r : FastaRecord) :
+    r.Clean ↔ r.header ≠ [] ∧ (∀ c, r.header.getLast? = some c → isSpace c = false) ∧
+      ∀ l ∈ r.seqLines, (∀ c, l.getLast? = some c → isSpace c = false) ∧ l.head? ≠ some '>' :=
+  FastaRecord.clean_iff r
+
+/-! ## Python's `int()` of the `PE=` field
+
+`parseInt` (Model/C19.lean) accepts exactly: white space of `isIntSpace` (= `str.isspace` without U+001C–U+001F) at
+both ends, an optional ASCII sign, decimal digits of any script (`digitZeros`: the 68 runs of ten of Unicode 15.0)
+with single underscores between digits.  The existence level is therefore an `Int`. -/
+
+example : parseInt "+1".toList = some 1 ∧ parseInt "1_0".toList = some 10 ∧ parseInt "1\t".toList = some 1 ∧
+    parseInt "-١٢".toList = some (-12) ∧ parseInt "\u00a007\u0085".toList = some 7 ∧ parseInt "１𝟐".toList = some 12 ∧
+    parseInt "-0".toList = some 0 := by decide +kernel
+example : parseInt "1\u001f".toList = none ∧ parseInt "_1".toList = none ∧ parseInt "1_".toList = none ∧
+    parseInt "1__0".toList = none ∧ parseInt "+ 1".toList = none ∧ parseInt "".toList = none ∧
+    parseInt "+".toList = none ∧ parseInt "1 2".toList = none ∧ parseInt "²".toList = none ∧
+    parseInt "0x1".toList = none := by decide +kernel
+example : (annotateChar .full "a PE=1_0".toList 0).toOption.map (·.existence) = some (some 10) ∧
+    (annotateChar .full "a PE=+1\t".toList 0).toOption.map (·.existence) = some (some 1) ∧
+    (annotateChar .gene "x PE=-١٢".toList 0).toOption.map (·.existence) = some (some (-12)) ∧
+    (match annotateChar .full "a PE=1\u001f".toList 0 with | .error .badExistence => true | _ => false) = true := by
+  decide +kernel
+
 /-- "… and sequence length": a file written record by record (header line, sequence lines; no line
-    ends in white space, no sequence line starts with `>`) is read back as exactly these records
-    with the total length of their sequence lines — target-only, and target + `REV__` decoy -/
+    ends in white space — Python's: `clean_iff` —, no sequence line starts with `>`) is read back as exactly
+    these records with the total length of their sequence lines — target-only, and target + `REV__` decoy -/
 theorem sequence_length (concat : Bool) (recs : List FastaRecord) (h : ∀ r ∈ recs, r.Clean) :
     readFasta concat (recs.flatMap FastaRecord.lines) =
       .ok (recs.flatMap (fun r =>
@@ -256,6 +301,19 @@ example : ∃ r : FastaRecord, r.Clean ∧ r.seqLength = 7 :=
     rcases hl with hl | hl <;> subst hl <;> decide +kernel, by decide +kernel⟩
 
 example : distinct [2, 1, 2, 3, 1] = [2, 1, 3] := by decide
+
+/-- Python strips what the six-character ASCII set would keep: sequence lines `MK` + NEL and `AA` + US under a
+    header ending in NBSP are read as header `…SV=2`, length 4 (the second audit's record; not `Clean`) -/
+example : (readFasta false [('>' :: render ex) ++ ['\u00a0'], "MK\u0085".toList, "AA\u001f".toList]).toOption =
+    some [(render ex, 4)] := by decide +kernel
+example : ¬ (FastaRecord.Clean { header := render ex ++ ['\u00a0'], seqLines := ["MK".toList] }) := by
+  intro h
+  have := ((clean_iff _).mp h).2.1 '\u00a0' (by decide +kernel)
+  revert this; decide +kernel
+/-- white space that does not end the line stays and counts -/
+example : (readFasta false ['>' :: render ex, "M\u00a0K\t".toList]).toOption = some [(render ex, 3)] := by
+  decide +kernel
+
 
 /-! Character level: the concrete record is parsed by the `str.split` mirror (kernel evaluation of
 `splitStrAux`), and the hypothesis `NoBlank` is needed — with a blank inside the accession the
@@ -367,7 +425,7 @@ theorem annotations_of_composed_record (pre post : List ComposedRecord) (c : Com
       a.header = render c.fields ∧
       a.id = some (if useUniprot then c.fields.acc else c.fields.ident) ∧
       a.uniprotId = c.fields.acc ∧ a.entryName = c.fields.entry ∧ a.geneName = c.fields.gene ∧
-      a.description = unwords c.fields.desc ∧ a.existence = some c.fields.pe ∧
+      a.description = unwords c.fields.desc ∧ a.existence = some (c.fields.pe : Int) ∧
       a.length = (c.seqLines.map List.length).sum ∧
       (∀ g, c.fields.gene = some g → a.organism = some (unwords (c.fields.org ++ [OX ++ c.fields.ox]))) ∧
       annotateChar (if useUniprot then .accession else .full) (render c.fields) a.length = .ok a := by
